@@ -24,6 +24,7 @@ import TPV.Props.C11Meas
 import TPV.Props.C11Affine
 import TPV.Props.C11Strat
 import TPV.Props.C11Finite
+import TPV.Props.C11Grid
 
 namespace TPV.Geom
 open MeasureTheory Set
@@ -209,5 +210,42 @@ example : Measure.map (intervalSample (1:ℝ) 3 ∘ fun u => 1 - u) (volume.rest
     (ENNReal.ofReal (3 - 1))⁻¹ • volume.restrict (Icc 1 3) := by
   rw [law_of_reparam _ _ _ reflect_uniform_mp (by unfold intervalSample; fun_prop)]
   exact interval_law 1 3 (by norm_num)
+
+/-! ### parallelogram grid: cells along one side (the bound the grid oracle of harness/c11.py uses) -/
+
+/-- all `n` inner nodes `(j+1)/(n+1)` lie in `[0, 1)` -/
+theorem linInner_all_in_unit (n : ℕ) :
+    ((List.range n).filter fun j => decide ((0:ℚ) ≤ linInner (K := ℚ) n j ∧ linInner (K := ℚ) n j < 1)).length = n := by
+  rw [interval_grid_count n 0 1 le_rfl]
+  simp only [zero_mul, Nat.ceil_zero, one_mul]
+  have : ⌈((n:ℚ) + 1)⌉₊ = n + 1 := by
+    have h : ((n:ℚ) + 1) = ((n + 1 : ℕ) : ℚ) := by push_cast; ring
+    rw [h, Nat.ceil_natCast]
+  rw [this]; omega
+
+/-- **Cells along one side of the parallelogram mesh.**  A strip `[a, b) × [0, 1)` of the barycentric square (a cell that cuts
+    the parallelogram only along its first side) holds `n₁·n₂·(b − a)` of the `n₁ × n₂` mesh nodes up to an error of less than
+    `2·n₂` nodes, `n₂` = number of nodes ACROSS: a long thin parallelogram (small `n₂`) is covered evenly along its long side.
+    This is the bound of the grid-evenness oracle; a grid that is cut to its first `n` nodes (all in one half) violates it. -/
+theorem baryGrid_strip_even (n1 n2 : ℕ) (a b : ℚ) (h0 : 0 ≤ a) (hab : a ≤ b) (h1 : b ≤ 1) (hn2 : 0 < n2) :
+    (n1 : ℚ) * n2 * (b - a) - 2 * n2 <
+        (((List.range (n1 * n2)).filter fun idx =>
+          decide ((a ≤ (baryGrid (K := ℚ) n1 n2 idx).1 ∧ (baryGrid (K := ℚ) n1 n2 idx).1 < b) ∧
+            ((0:ℚ) ≤ (baryGrid (K := ℚ) n1 n2 idx).2 ∧ (baryGrid (K := ℚ) n1 n2 idx).2 < 1))).length : ℚ) ∧
+      (((List.range (n1 * n2)).filter fun idx =>
+          decide ((a ≤ (baryGrid (K := ℚ) n1 n2 idx).1 ∧ (baryGrid (K := ℚ) n1 n2 idx).1 < b) ∧
+            ((0:ℚ) ≤ (baryGrid (K := ℚ) n1 n2 idx).2 ∧ (baryGrid (K := ℚ) n1 n2 idx).2 < 1))).length : ℚ) <
+        (n1 : ℚ) * n2 * (b - a) + 2 * n2 := by
+  rw [baryGrid_count_factor, linInner_all_in_unit]
+  obtain ⟨hl, hu⟩ := interval_grid_even n1 a b h0 hab h1
+  have hpos : (0:ℚ) < n2 := by exact_mod_cast hn2
+  push_cast
+  constructor <;> nlinarith
+
+example : ((3:ℕ) : ℚ) * (2:ℕ) * (1 / 2 - 0) - 2 * (2:ℕ) <
+    (((List.range (3 * 2)).filter fun idx =>
+      decide (((0:ℚ) ≤ (baryGrid (K := ℚ) 3 2 idx).1 ∧ (baryGrid (K := ℚ) 3 2 idx).1 < 1 / 2) ∧
+        ((0:ℚ) ≤ (baryGrid (K := ℚ) 3 2 idx).2 ∧ (baryGrid (K := ℚ) 3 2 idx).2 < 1))).length : ℚ) :=
+  (baryGrid_strip_even 3 2 0 (1 / 2) le_rfl (by norm_num) (by norm_num) (by norm_num)).1
 
 end TPV.Geom
